@@ -278,10 +278,17 @@ def loops_in(m, start, end, skip_ranges=()):
             if rest.lstrip().startswith("<"):
                 continue
             # must be followed eventually by ' in ' before the '{'
-        bo = depth0_find(m, mm.end(), end, lambda mm_, x: mm_[x] == "{")
+        from_ = mm.end()
+        if kw == "for":
+            # the pattern may contain braces (`for &P { a, b } in xs {`): the body's brace is the first one after the depth-0 `in`
+            ip = depth0_find(m, mm.end(), end, lambda mm_, x: mm_.startswith("in", x) and mm_[x - 1].isspace() and mm_[x + 2].isspace())
+            if ip < 0:
+                continue
+            from_ = ip + 2
+        bo = depth0_find(m, from_, end, lambda mm_, x: mm_[x] == "{")
         if bo < 0:
             continue
-        if kw == "for" and not re.search(r"\bin\b", m[mm.end():bo]):
+        if kw == "for" and ";" in m[mm.end():bo]:
             continue
         bc = match_close(m, bo)
         res.append((o, kw, bo, bc))
